@@ -492,8 +492,14 @@ class World:
         for o in sorted(self.obj):
             real = self.obj[o]
             if isinstance(real, df.Region):
-                heap[o] = {"k": "region", "lo": [rat(v, emb) for v in real.pmin], "hi": [rat(v, emb) for v in real.pmax],
-                           "units": [str(u) for u in real.units], "dims": [str(d) for d in real.dims]}
+                try:
+                    heap[o] = {"k": "region", "lo": [rat(v, emb) for v in real.pmin], "hi": [rat(v, emb) for v in real.pmax],
+                               "units": [str(u) for u in real.units], "dims": [str(d) for d in real.dims]}
+                except TooBig:
+                    # which object it is (a subregion of a live mesh or a mesh's region) decides whose text a replayed model
+                    # history contradicts; random programs just end there
+                    sub = any(isinstance(m, df.Mesh) and any(s is real for s in m.subregions.values()) for m in self.obj.values())
+                    raise TooBig("subregion" if sub else "region", o, [float(v) for v in real.pmin], [float(v) for v in real.pmax])
             elif isinstance(real, df.Mesh):
                 heap[o] = {"k": "mesh", "region": self.oid.get(id(real.region), 0), "n": [int(v) for v in real.n],
                            "sub": [self.oid.get(id(s), 0) for s in real.subregions.values()], "names": list(real.subregions)}
